@@ -55,7 +55,14 @@ def gen(rng, facts):
             inj = []
             if rng.random() < 0.3:
                 u = rng.randrange(nt)
-                inj.append((rng.choice([3, 4, 8]), 0, [('log', u, c.next_id, 0, 4, HDR_LOG, 0, False), ('exit', u)])); c.next_id += 1
+                # a thread's last words inside a backend pass: plain; into a fresh node after a shrink; too large for the
+                # current node (both leave a drained node in front of the node that holds the record - unbounded queues)
+                k = rng.random()
+                last = []
+                if k < 0.35 and c.dropping == 2: last.append(('shrink', u, rng.choice([64, 128, 256])))
+                pad = rng.choice([C, 2 * C + 3]) if 0.35 <= k < 0.6 and c.dropping == 2 else 0
+                last += [('log', u, c.next_id, 0, 4, HDR_LOG + pad, 0, False), ('exit', u)]
+                inj.append((rng.choice([3, 4, 6, 7, 8, 8]), 0, last)); c.next_id += 1
             c.poll(inj)
     for _ in range(5):
         for t in range(nt): c.resume(t)
